@@ -50,7 +50,7 @@ var loadTrusted = map[string]bool{
 	"bytes.NewReader": true, "bytes.(Reader).Read": true,
 	"math.Float32frombits": true, "math.Float64frombits": true,
 	"fmt.Errorf": true, "fmt.Sprintf": true, "errors.New": true,
-	"reflect.ValueOf": true,
+	"reflect.ValueOf":        true,
 	pkgTensor + ".WithShape": true, pkgTensor + ".WithBacking": true,
 }
 
